@@ -37,10 +37,21 @@ thread_local! {
 }
 static NEXT_WORKER: AtomicUsize = AtomicUsize::new(0);
 
+/// Machinery self-test only: ENUM_TUPLE_TEST_ABORT_ON=<hex> makes the process abort when that
+/// hostile input is evaluated, to exercise the dead-child path of the sweep driver.
+fn test_abort_hook(s: &[u8]) {
+    static ON: std::sync::OnceLock<Option<Vec<u8>>> = std::sync::OnceLock::new();
+    let on = ON.get_or_init(|| std::env::var("ENUM_TUPLE_TEST_ABORT_ON").ok().and_then(|h| unhex(&h)));
+    if on.as_deref() == Some(s) {
+        std::process::abort();
+    }
+}
+
 fn run_any_case(hcx: &HostileCtx, case: &Value) -> Vec<Finding> {
     match case["kind"].as_str().unwrap_or("") {
         "hostile" => {
             let s = unhex(case["bytes"].as_str().unwrap_or("")).unwrap_or_default();
+            test_abort_hook(&s);
             let mut o = Obs::default();
             hostile::run_v1(hcx, &s, &mut o);
             hostile::run_v2(&s, &mut o);
@@ -424,29 +435,68 @@ impl Fine<'_> {
     }
 }
 
+thread_local! {
+    static OBS: RefCell<Obs> = RefCell::new(Obs::default());
+    static TALLY: RefCell<[u64; 8]> = const { RefCell::new([0; 8]) };
+}
+
+const TALLY_NAMES: [&str; 8] = [
+    "hostile_inputs",
+    "hostile_reencode_identical",
+    "hostile_reencode_differs",
+    "hostile_inputs_accepted_by_some_typed_parser",
+    "damaged_keys",
+    "damaged_keys_accepted",
+    "damaged_reencode_differs",
+    "damaged_reencode_identical",
+];
+
+fn tally(i: usize, n: u64) {
+    TALLY.with(|t| t.borrow_mut()[i] += n);
+}
+
+fn flush_tally(rep: &mut Report) {
+    TALLY.with(|t| {
+        let mut t = t.borrow_mut();
+        for i in 0..8 {
+            if t[i] > 0 {
+                rep.count(TALLY_NAMES[i], t[i]);
+                t[i] = 0;
+            }
+        }
+    });
+}
+
 fn eval_hostile(hcx: &HostileCtx, s: &[u8], fine: &Fine, rep: &mut Report) {
     fine.ahead(|| json!({"kind": "hostile", "bytes": hex(s)}));
-    let mut o = Obs::default();
+    test_abort_hook(s);
+    let mut o = OBS.with(|o| std::mem::take(&mut *o.borrow_mut()));
+    o.reset();
     hostile::run_v1(hcx, s, &mut o);
     hostile::run_v2(s, &mut o);
+    eval_hostile_tail(hcx, s, rep, &mut o);
+    OBS.with(|x| *x.borrow_mut() = o);
+}
+
+fn eval_hostile_tail(hcx: &HostileCtx, s: &[u8], rep: &mut Report, o: &mut Obs) {
     rep.evaluations += 1;
     rep.traces_validated += 1;
     rep.transitions += o.calls;
-    rep.count("hostile_inputs", 1);
-    rep.count("hostile_reencode_identical", o.reencode_same);
-    rep.count("hostile_reencode_differs", o.reencode_differs);
-    rep.outcomes.extend(o.classes.iter().copied());
+    tally(0, 1);
+    tally(1, o.reencode_same);
+    tally(2, o.reencode_differs);
+    rep.outcomes.extend(o.fresh.drain(..));
     if s.len() <= 2 || o.accepted {
         let h = stable_hash(&("bytes", s));
         rep.states.insert(h);
         if o.accepted {
             rep.nontrivial.insert(h);
-            rep.count("hostile_inputs_accepted_by_some_typed_parser", 1);
+            tally(3, 1);
         }
     }
     if !o.findings.is_empty() {
         let cs = json!({"kind": "hostile", "bytes": hex(s)});
-        record(hcx, rep, o.findings, s.len() as u64, || cs.clone(), || run_any_case(hcx, &cs));
+        record(hcx, rep, std::mem::take(&mut o.findings), s.len() as u64, || cs.clone(), || run_any_case(hcx, &cs));
     }
 }
 
@@ -492,31 +542,51 @@ fn run_partition(hcx: &HostileCtx, sweep: &str, part: usize, thorough: bool, fin
                         cs
                     };
                     fine.ahead(mk);
-                    let mut o = Obs::default();
+                    let mut o = OBS.with(|o| std::mem::take(&mut *o.borrow_mut()));
+                    o.reset();
                     hostile::run_damaged(hcx, c, fields, schema, &t, s, &mut o);
                     rep.evaluations += 1;
                     rep.traces_validated += 1;
                     rep.transitions += o.calls;
-                    rep.count("damaged_keys", 1);
+                    tally(4, 1);
                     if o.accepted {
-                        rep.count("damaged_keys_accepted", 1);
+                        tally(5, 1);
                     }
-                    rep.count("damaged_reencode_differs", o.reencode_differs);
-                    rep.outcomes.extend(o.classes.iter().copied());
+                    tally(6, o.reencode_differs);
+                    tally(7, o.reencode_same);
+                    rep.outcomes.extend(o.fresh.drain(..));
                     if !o.findings.is_empty() {
                         let cs = mk();
-                        record(hcx, rep, o.findings, s.len() as u64, || cs.clone(), || run_any_case(hcx, &cs));
+                        record(hcx, rep, std::mem::take(&mut o.findings), s.len() as u64, || cs.clone(), || run_any_case(hcx, &cs));
                     }
+                    OBS.with(|x| *x.borrow_mut() = o);
                 };
                 for n in 0..key.len() {
                     one(&key[..n], rep);
                 }
                 let mut m = key.clone();
+                // keys of three elements (thorough tier only) are mutated with the structural
+                // alphabet and the three bit patterns of the original byte, not all 255 values
+                let structural: Vec<u8> = if schema.len() >= 3 { alphabet4() } else { vec![] };
                 for pos in 0..key.len() {
-                    for x in 0..=255u8 {
-                        if x != key[pos] {
-                            m[pos] = x;
-                            one(&m, rep);
+                    if schema.len() >= 3 {
+                        let b = key[pos];
+                        let mut xs = structural.clone();
+                        xs.extend([b ^ 1, b ^ 0x80, !b]);
+                        xs.sort();
+                        xs.dedup();
+                        for x in xs {
+                            if x != b {
+                                m[pos] = x;
+                                one(&m, rep);
+                            }
+                        }
+                    } else {
+                        for x in 0..=255u8 {
+                            if x != key[pos] {
+                                m[pos] = x;
+                                one(&m, rep);
+                            }
                         }
                     }
                     m[pos] = key[pos];
@@ -544,6 +614,7 @@ fn child_main(args: &Args) {
         child::write_ahead(&path, &part.to_string());
         let f = Fine { path: if fine { Some(&path) } else { None }, part: *part };
         run_partition(&hcx, &sweep, *part, thorough, &f, rep);
+        flush_tally(rep);
     });
     let mut v = child::report_to_json(&rep);
     v["best"] = Value::Array(
@@ -683,7 +754,7 @@ fn main() {
     bound["hostile"] = json!({"all_byte_strings_up_to": 3, "length4_alphabet": if on("bytes4") { alphabet4().len() } else { 0 }, "damaged_key_schema_runs": if on("damaged") { damaged_items(thorough).len() } else { 0 }});
     bound["sections"] = json!(sections);
     total.bound = bound;
-    total.rule = "typed: for both crates every schema of 1..3 elements over the crate's element types (tuple_key: unit,u32,u64,i32,i64,string x ascending/descending, two field-number profiles; tuple_key2: unit,u8..u64,i8..i64,string,bytes ascending) and every tuple of the cartesian product of per-element boundary domains (level by schema length, see bound): decode(encode(t)) = t; for every unordered pair of tuples the byte order of the encodings equals the element-wise order of the tuples (native Ord per element, reversed for descending elements); for schemas of <= 2 elements and every extension by one element of any type: enc(t) < enc(t+y) < enc(u) for every u > t. derive: the same through four #[derive(TypedTupleKey)] structs, plus equality with the direct API. bytes3/bytes4/damaged (child processes): every byte string of length <= 3 (and length 4 over a structural alphabet in the thorough tier) is given to the iterator, every typed parser sequence of <= 3 elements, every value parser behind a valid tag, the element decoders and the schema walker of tuple_key and to every typed parser sequence and the boundary scanner of tuple_key2; every truncation and every 1-byte mutation of every valid key is parsed with the key's own schema; Ok and Err are both fine, a panic or a dead child is a violation. distinct (states) = distinct (schema, tuple) inputs, distinct hostile strings of length <= 2 or accepted by a typed parser, distinct damaged keys; non-trivial = tuples that took part in a comparison decided after the first element or by a prefix relation, hostile strings accepted by a typed parser; outcomes = distinct (program, result class) observations and finding signatures.".into();
+    total.rule = "typed: for both crates every schema of 1..3 elements over the crate's element types (tuple_key: unit,u32,u64,i32,i64,string x ascending/descending, two field-number profiles; tuple_key2: unit,u8..u64,i8..i64,string,bytes ascending) and every tuple of the cartesian product of per-element boundary domains (level by schema length, see bound): decode(encode(t)) = t; for every unordered pair of tuples the byte order of the encodings equals the element-wise order of the tuples (native Ord per element, reversed for descending elements); for schemas of <= 2 elements and every extension by one element of any type: enc(t) < enc(t+y) < enc(u) for every u > t. derive: the same through four #[derive(TypedTupleKey)] structs, plus equality with the direct API. bytes3/bytes4/damaged (child processes): every byte string of length <= 3 (and length 4 over a structural alphabet in the thorough tier) is given to the iterator, every typed parser sequence of <= 3 elements, every value parser behind a valid tag, the element decoders and the schema walker of tuple_key and to every typed parser sequence and the boundary scanner of tuple_key2; every truncation and every 1-byte mutation (all 255 other values; for the three-element keys of the thorough tier the structural alphabet plus the original byte with bit 0, bit 7 or all bits flipped) of every valid key is parsed with the key's own schema; Ok and Err are both fine, a panic or a dead child is a violation. distinct (states) = distinct (schema, tuple) inputs, distinct hostile strings of length <= 2 or accepted by a typed parser, distinct damaged keys; non-trivial = tuples that took part in a comparison decided after the first element or by a prefix relation, hostile strings accepted by a typed parser; outcomes = distinct (program, result class) observations and finding signatures.".into();
     total.assumptions = vec![
         "both tuples of a pair use the same field numbers (tuple_key) -- the property compares tuples of one type sequence".into(),
         "element values outside the boundary domains are not covered".into(),
